@@ -9,7 +9,7 @@ from utype.parser.base import Options
 
 from typing import Optional, Type, Union, Dict
 from utype.utils.datastructures import unprovided
-from utype.utils.compat import JSON_TYPES, ForwardRef, evaluate_forward_ref
+from utype.utils.compat import JSON_TYPES, ATOM_TYPES, ForwardRef, evaluate_forward_ref
 from utype.utils.encode import JSONEncoder
 from enum import EnumMeta
 from . import constant
@@ -211,7 +211,8 @@ class JsonSchemaGenerator:
                 # utype matches the whole value, a JSON Schema pattern is searched for: anchor it
                 if not (value.startswith('^') and value.endswith('$')):
                     value = f'^(?:{value})$'
-            elif type(value) not in JSON_TYPES:
+            elif type(value) not in ATOM_TYPES:
+                # also lists / dicts: their members (enum=[date(...)]) may not be JSON values themselves
                 # bounds like datetime / timedelta / Decimal: emit their JSON encoding
                 value = json.loads(json.dumps(value, cls=JSONEncoder))
             data[constraint_name] = value
@@ -362,10 +363,12 @@ class JsonSchemaGenerator:
             data.update(dependentRequired=dependent_required)
         addition = options.addition
         if addition is not None:
-            if isinstance(addition, type):
-                data.update(additionalProperties=self.generate_for_type(addition))
-            else:
+            if isinstance(addition, bool):
                 data.update(additionalProperties=addition)
+            else:
+                # a type, or an annotation such as List[int] (the parser keeps its parsed form)
+                data.update(additionalProperties=self.generate_for_type(
+                    getattr(parser, 'addition_type', None) or addition))
 
         annotations = parser.schema_annotations
         if annotations:
